@@ -137,7 +137,9 @@ def dag(draw):
 
 
 def strategy(tier):
-    return st.one_of(cyclic(), cyclic(), event_feedback(), dag(), dag())
+    base = st.one_of(cyclic(), cyclic(), event_feedback(), dag(), dag())
+    # in a third of the cases the sources also have an on_every_output event (to a bystander)
+    return st.tuples(base, st.integers(0, 2)).map(lambda t: {**t[0], 'every': t[1] == 0})
 
 
 # ---------------------------------------------------------------- executor
@@ -171,13 +173,17 @@ def execute(case):
         harness.reset()
         circuit = edzed.get_circuit()
         cls = case['class']
+        ekw = {}
+        if case.get('every'):
+            harness.Recorder('watch', x_log=[])
+            ekw['on_every_output'] = edzed.Event('watch', 'note')
         if cls == 'cyclic':
-            srcs = [edzed.Input(f's{i}', initdef=v) for i, v in enumerate(case['init'])]
+            srcs = [edzed.Input(f's{i}', initdef=v, **ekw) for i, v in enumerate(case['init'])]
             for j, k in enumerate(case['kinds']):
                 edzed.FuncBlock(f'c{j}', func=counted(lambda args, k=k: evalk(k, args)),
                                 unpack=False).connect(*case['ins'][j])
         elif cls == 'event':
-            srcs = [edzed.Input('s0', initdef=case['init'])]
+            srcs = [edzed.Input('s0', initdef=case['init'], **ekw)]
             prev = 's0'
             for k in range(case['chain']):
                 edzed.FuncBlock(f'p{k}', func=counted(lambda x: x)).connect(prev)
@@ -198,7 +204,7 @@ def execute(case):
                             raise edzed.EdzedUnknownEvent(f"{self}: Unknown event type {etype!r}")
                 Picky('picky')
                 kw['on_output'] = edzed.Event('picky', 'take')
-            srcs = [edzed.Input(f's{i}', initdef=0, **kw) for i in range(nsrc)]
+            srcs = [edzed.Input(f's{i}', initdef=0, **kw, **ekw) for i in range(nsrc)]
             names = [f's{i}' for i in range(nsrc)] + [f'c{j}' for j in range(len(case['preds']))]
             for j in case['order']:
                 edzed.FuncBlock(f'c{j}', func=counted(lambda args: sum(args)), unpack=False).connect(
